@@ -110,6 +110,12 @@ def programs(tier: str):
     # LONG limits (6, 9, 17, 33): the first k calls fail with the caught class (k = limit-2 ..
     # limit), every outcome sequence after that - attempt counters, per-attempt delays and delay
     # function arguments far beyond the small limits
+    # FINE and huge delays (9/8192 s, attempt/2048 + 1/16384 s, 2**20 + 0.5 s): exact dyadic values far
+    # off the millisecond grid
+    for limit in (1, 2, 4):
+        for delay in ("fine", "fn-fine", "big"):
+            for mode in ("sync", "async"):
+                yield {"limit": limit, "catching": "class", "delay": delay, "mode": mode, "scoped": False}
     for limit in (3, 4):
         if limit in BOUNDS[tier]["limits"]:
             continue
@@ -402,6 +408,17 @@ def execute(program, ch: Chooser) -> Result:  # noqa: C901, PLR0912, PLR0915
     elif delay == "fn-varargs":
         # a delay function that declares a single var-positional parameter (a forwarding wrapper)
         kwargs["delay"] = lambda *details: delay_fn(*details)
+    elif delay == "fine":
+        kwargs["delay"] = 1 / 1024 + 1 / 8192  # far off the millisecond grid, exact in binary
+    elif delay == "big":
+        kwargs["delay"] = float(2**20) + 0.5
+    elif delay == "fn-fine":
+
+        def delay_fn_fine(attempt, exc):
+            delay_calls.append((attempt, exc))
+            return attempt / 2048 + 1 / 16384
+
+        kwargs["delay"] = delay_fn_fine
     elif delay == "zero":
         kwargs["delay"] = 0
     elif delay == "zerof":
@@ -503,7 +520,7 @@ def execute(program, ch: Chooser) -> Result:  # noqa: C901, PLR0912, PLR0915
         retries = len(calls) - 1
         exp_pauses: list[float] = []
         for k in range(1, retries + 1):
-            exp_pauses.append({"none": 0.0, "int": 2.0, "float": 0.5, "fn": 0.25 * k, "fn-int": 2.0 * k, "zero": 0.0, "zerof": 0.0}[delay])
+            exp_pauses.append({"none": 0.0, "int": 2.0, "float": 0.5, "fn": 0.25 * k, "fn-int": 2.0 * k, "zero": 0.0, "zerof": 0.0, "fine": 1 / 1024 + 1 / 8192, "big": float(2**20) + 0.5, "fn-fine": k / 2048 + 1 / 16384}[delay])
         if len(calls) == exp_calls:
             deltas = [calls[i + 1]["t"] - calls[i]["t"] for i in range(retries)]
             if deltas != exp_pauses:
@@ -513,7 +530,7 @@ def execute(program, ch: Chooser) -> Result:  # noqa: C901, PLR0912, PLR0915
                 want = [p for p in exp_pauses] if delay != "none" else []
                 if logged != want:
                     viols.append(viol("delay", f"sleep-calls/{delay}/sync", want, logged))
-            if delay in ("fn", "fn-int"):
+            if delay in ("fn", "fn-int", "fn-fine"):
                 want_args = [(k, calls[k - 1].get("exc")) for k in range(1, retries + 1)]
                 if len(delay_calls) != len(want_args) or any(
                     a[0] != b[0] or a[1] is not b[1] for a, b in zip(delay_calls, want_args)
